@@ -55,6 +55,7 @@ struct Ctx {
 	unsigned arch = A_JSON;
 	bool nonFinite = true;     // may generate NaN/Inf
 	bool xmlText = false;      // restrict text to XML 1.0 Char, keys to XML Name
+	bool xmlCr = false;        // allow U+000D in XML text (C08: end-of-line normalisation of conforming parsers)
 	bool csvFlat = false;
 	bool emptyEqualsNull = false;   // format cannot distinguish "" from null
 	int maxSize = 4;           // typical container size bound
@@ -113,7 +114,7 @@ inline uint32_t genCp(vh::Rng& r, const Ctx& c) {
 		else cp = uint32_t(r.range(0x10000, 0x10FFFF));
 		if (cp >= 0xD800 && cp <= 0xDFFF) continue;
 		if (cp == 0 && !r.chance(1, 8)) continue;     // U+0000 is kept rare: a BOM-less UTF-8 stream with a zero byte is taken for UTF-16 (recorded finding) and would hide everything else
-		if (c.xmlText && (!isXmlChar(cp) || cp == 0x0D)) continue;   // CR is normalised by every XML parser (XML 1.0 2.11)
+		if (c.xmlText && (!isXmlChar(cp) || (cp == 0x0D && !c.xmlCr))) continue;   // CR is normalised by every XML parser (XML 1.0 2.11)
 		return cp;
 	}
 }
